@@ -81,6 +81,7 @@ func decodeCollCase(tier string, idx int, tape *Tape) *collCase {
 		}
 		return TypeRef(NT + tape.Choose(StCfg, types))
 	}
+	var plainTypes, depTypes []TypeRef
 	newReg := func() *Reg {
 		r := &Reg{ID: nregs}
 		nregs++
@@ -145,6 +146,22 @@ func decodeCollCase(tier string, idx int, tape *Tape) *collCase {
 				r.As = []int{tape.Choose(StCfg, 2)}
 			}
 		}
+		// dependencies on pool types: whether they are registered (and with which
+		// lifetime) changes as the history goes on
+		if r.Form != FInstance && tape.Choose(StCfg, 3) == 0 {
+			nd := 1 + tape.Choose(StCfg, 2)
+			for j := 0; j < nd; j++ {
+				t := pickT()
+				if len(plainTypes) > 0 && tape.Choose(StCfg, 3) != 0 {
+					t = plainTypes[tape.Choose(StCfg, len(plainTypes))] // something registered earlier in this history
+				}
+				r.Deps = append(r.Deps, Dep{T: t})
+				depTypes = append(depTypes, t)
+			}
+		}
+		if (r.Form == FSingle || r.Form == FSingleErr || r.Form == FInstance) && r.Name == "" && r.Group == "" && len(r.As) == 0 {
+			plainTypes = append(plainTypes, r.Outs[0].T)
+		}
 		return r
 	}
 	for i := 0; i < nops; i++ {
@@ -173,7 +190,11 @@ func decodeCollCase(tier string, idx int, tape *Tape) *collCase {
 			}
 			c.Ops = append(c.Ops, op)
 		case 7, 8:
-			c.Ops = append(c.Ops, cOp{Kind: cRemove, Id: Ident{T: pickT()}})
+			t := pickT()
+			if len(depTypes) > 0 && tape.Choose(StOps, 2) == 0 {
+				t = depTypes[tape.Choose(StOps, len(depTypes))] // something another registration depends on
+			}
+			c.Ops = append(c.Ops, cOp{Kind: cRemove, Id: Ident{T: t}})
 		case 9:
 			c.Ops = append(c.Ops, cOp{Kind: cRemoveKeyed, Id: Ident{T: pickT(), Key: keyPool[tape.Choose(StOps, 2)]}})
 		case 10, 11:
@@ -244,7 +265,14 @@ func (m *collModel) remove(id Ident) {
 		}
 	}
 	m.order = kept
-	m.touched[p.Reg] = true
+	// only a registration that keeps other identities is in the unspecified zone
+	// ("what do the sibling outputs become"); a completely removed one is simply gone
+	for _, x := range m.order {
+		if x.Reg == p.Reg {
+			m.touched[p.Reg] = true
+			break
+		}
+	}
 }
 
 // tainted: some registration that lost one of its identities through Remove*
@@ -477,6 +505,8 @@ func runCollCase(c *collCase, tape *Tape, out *RunOut) []Violation {
 			}
 			_, cls := classify(err)
 			switch {
+			case registered && err != nil && anyTouched(mm):
+				// it may depend on a sibling output of a partially removed multi-output registration: unspecified
 			case registered && err != nil:
 				add("C17.snapshot", "lost", "%s: %s is registered (r%d) in the provider's snapshot but resolution failed: %v", when, id, p.Reg, firstLine(err))
 			case registered && got != p.Reg && !mm.touched[p.Reg]:
@@ -486,14 +516,14 @@ func runCollCase(c *collCase, tape *Tape, out *RunOut) []Violation {
 			case !registered && !hasClass(cls, ENotFound):
 				add("C17.removed", "class", "%s: %s is not registered but failed with %v instead of not-found", when, id, firstLine(err))
 			}
-			if !first {
+			if !first && !anyTouched(mm) {
 				if prev, ok := bp.seen[id]; ok && prev != got {
 					add("C17.snapshot", "changed", "%s: %s resolved to r%d before the later edits of the collection and to r%d after", when, id, prev, got)
 				}
 				if pi, ok := bp.inst[id]; ok && registered && mm.regs[p.Reg].Life != LTransient && pi != inst && pi >= 0 {
 					add("C17.snapshot", "instance", "%s: %s (non-transient) resolved to instance #%d before and #%d after later edits", when, id, pi, inst)
 				}
-			} else {
+			} else if first {
 				bp.seen[id] = got
 				bp.inst[id] = inst
 			}
@@ -563,6 +593,27 @@ func runCollCase(c *collCase, tape *Tape, out *RunOut) []Violation {
 			for _, inv := range h.invs[invBefore:] {
 				if m.gone(inv.Reg) {
 					add("C17.removed", "ctor-ran", "%s: constructor of r%d ran although the registration was removed or rejected", when, inv.Reg)
+				}
+			}
+			if !anyTouched(m) {
+				// the verdict of every Build of the history is judged against the registry as it is now
+				_, bcls := classify(err)
+				single := b2i(mod.V.Cycle)+b2i(mod.V.Conflict)+b2i(mod.V.Missing) == 1
+				switch {
+				case mod.V.Cycle && !hasClass(bcls, ECircular) && single:
+					vs = append(vs, Violation{Prop: "C05", Rule: "C05.build", Shape: "rebuild", Msg: fmt.Sprintf("%s: the current registry has a dependency cycle but Build returned %v", when, firstLine(err))})
+				case mod.V.Conflict && !hasClass(bcls, ELifetime) && single:
+					vs = append(vs, Violation{Prop: "C07", Rule: "C07.verdict", Shape: "rebuild", Msg: fmt.Sprintf("%s: in the current registry a singleton/transient depends on a scoped registration but Build returned %v", when, firstLine(err))})
+				case mod.V.Missing && err == nil && single:
+					vs = append(vs, Violation{Prop: "C08", Rule: "C08.found", Shape: "rebuild", Msg: fmt.Sprintf("%s: a required dependency is not registered (any more) but Build succeeded; resolving the dependent fails with not-found", when)})
+				case mod.V.OK() && err != nil:
+					vs = append(vs, Violation{Prop: "C08", Rule: "C08.accept", Shape: "rebuild", Msg: fmt.Sprintf("%s: the current registry is valid but Build returned %v", when, firstLine(err))})
+					if hasClass(bcls, ECircular) {
+						vs = append(vs, Violation{Prop: "C05", Rule: "C05.build", Shape: "rebuild/false-cycle", Msg: fmt.Sprintf("%s: the current registry is acyclic but Build reported a cycle: %v", when, firstLine(err))})
+					}
+					if hasClass(bcls, ELifetime) {
+						vs = append(vs, Violation{Prop: "C07", Rule: "C07.verdict", Shape: "rebuild/false-conflict", Msg: fmt.Sprintf("%s: no captive dependency in the current registry but Build reported a lifetime conflict: %v", when, firstLine(err))})
+					}
 				}
 			}
 			if err != nil {
